@@ -15,7 +15,14 @@ CLAIMED = {
         "note": "trusted: numpy, sgp4 library; the differential oracle is blind to errors identical with and without history (numerical correctness is C05-C07, not applicable); KeplerNum values vs direct propagation only within a calibrated, integrator-dependent tolerance",
         "ref": "DESIGN.md 5.2",
     },
+    "C10": {
+        "level": "exploration",
+        "technique": "deterministic simulation: the C08 scheduler with shared / re-used listener objects and caller-owned listener lists, cancelled and repeated iterations, virtual wall clock; independent models of every watched quantity + fresh-node stream differential",
+        "text": "seeded search over schedules of iterations with listeners (every listener type, LEO to Molniya, analytical / numerical / ephemeris propagation, station.visibility streams) that are interleaved, cancelled, abandoned and repeated re-using the same listener objects and the same caller-owned list. For each pair of consecutive range dates the independent model of each watched quantity decides whether exactly one event per listener object must lie between them (sound + complete), each event is checked for position, sharpness (sign change of the model quantity within 3 x _eps_bisect + 2 us; 0.01 s / 0.5 s for umbra / penumbra against the true cones), label and order, visibility streams for exactly the above-horizon samples, and the whole stream against the same call made alone with fresh objects on a pristine node. Sampling, not proof.",
+        "note": "trusted: numpy; frame conversions and the analytic Sun are taken from the pristine node (C02/C11/C18 territory); for two iterations consumed at the same time through one listener object (the plan's own doing) nothing is asserted about events; inside visibility streams completeness is asserted for the station listeners only (the others are filtered below the horizon by design)",
+        "ref": "DESIGN.md 5.3",
+    },
 }
 
 # claimed in DESIGN.md, check not yet registered
-PENDING = {k: 'designed in DESIGN.md section 5; its check is still under construction in this build phase and is therefore not claimed yet' for k in ['C03','C10','C12','C13','C14','C15','C18']}
+PENDING = {k: 'designed in DESIGN.md section 5; its check is still under construction in this build phase and is therefore not claimed yet' for k in ['C03','C12','C13','C14','C15','C18']}
